@@ -208,6 +208,33 @@ var c01Forgeries = []forgery{
 		q.QeReportData[32+s.Intn(32)] = byte(1 + s.Intn(255))
 		gen.SignQe(q, w.Leaf.Key)
 	}},
+	{"key-bytes-rearranged", "reject", func(w *gen.World, q *gen.RefQuote, s *gen.Stream) {
+		// the attestation key's 64 bytes in another arrangement (each coordinate byte-reversed = the little-endian
+		// spelling of the same numbers, the whole key reversed, X and Y exchanged), nothing else touched: the key that
+		// verified the body signature is the 64 bytes as they stand in the quote, and the hash binding covers those bytes
+		k := q.AttKey
+		rev := func(b []byte) {
+			for i, j := 0, len(b)-1; i < j; i, j = i+1, j-1 {
+				b[i], b[j] = b[j], b[i]
+			}
+		}
+		switch s.Intn(4) {
+		case 0:
+			rev(k[:32])
+			rev(k[32:])
+		case 1:
+			rev(k[:])
+		case 2:
+			copy(k[:32], q.AttKey[32:])
+			copy(k[32:], q.AttKey[:32])
+		default:
+			rev(k[:32])
+		}
+		if k == q.AttKey {
+			k[0] ^= 1
+		}
+		q.AttKey = k
+	}},
 	{"hash-digest-altered-qe-resigned", "reject", func(w *gen.World, q *gen.RefQuote, s *gen.Stream) {
 		// the QE report (validly re-signed by the PCK key) carries a digest that differs from SHA-256(key || auth)
 		// in one bit, in the case bit of a byte, or in one byte >= 0x80 replaced by another: a comparison that is
@@ -534,6 +561,32 @@ func TestC01(t *testing.T) {
 				}})
 			}
 		}
+		// every signed bytes field of the message in another size: bytes appended (the signed region only holds the
+		// field's own width: what is appended is signed by nobody), the last byte dropped, absent
+		for _, n := range names {
+			n := n
+			if n == "qe_auth_data" || n == "signature" || n == "qe_report_signature" {
+				continue
+			}
+			for _, how := range []string{"byte-appended", "doubled", "last-byte-dropped", "nil"} {
+				how := how
+				muts = append(muts, mm{n + ":" + how, func(m *pb.QuoteV4) {
+					f := bytesFields(m)[n]
+					switch how {
+					case "byte-appended":
+						*f = append(append([]byte{}, *f...), 0x5a)
+					case "doubled":
+						*f = append(append([]byte{}, *f...), *f...)
+					case "last-byte-dropped":
+						if len(*f) > 0 {
+							*f = (*f)[:len(*f)-1]
+						}
+					default:
+						*f = nil
+					}
+				}})
+			}
+		}
 		for i, mu := range muts {
 			if !gen.ShardOwns(i) {
 				continue
@@ -547,7 +600,7 @@ func TestC01(t *testing.T) {
 				if v.Accepted() {
 					mb, _ := proto.Marshal(m)
 					gen.Fail(t, gen.Violation{Key: "accepts-altered-message-field:" + strings.SplitN(mu.name, ":", 2)[0], Oracle: "no bit of the header, TD body, attestation key, QE report or QE authentication data of a genuine quote can change without the quote being rejected",
-						Detail: fmt.Sprintf("message mutant %s accepted at level %s", mu.name, l), Replay: map[string]any{"kind": "crash-message", "proto_hex": hex.EncodeToString(mb), "mutation": mu.name}})
+						Detail: fmt.Sprintf("message mutant %s accepted at level %s", mu.name, l), Replay: withFields(w.CaseFile(l, nil, nil, nil, "reject"), map[string]any{"proto_hex": hex.EncodeToString(mb), "mutation": mu.name})})
 					return
 				}
 				gen.NonTrivial("msgfield", mu.name, int(l))
@@ -646,8 +699,34 @@ func TestC01(t *testing.T) {
 	// (2) structured forgeries with a verdict known by construction.
 	gen.Prop(t, "forgeries", gen.N(5000, 400000), func(t *rapid.T) {
 		w, _ := gen.DrawWorld(t, gen.WorldCfg{MaxAuth: 300, Simple: rapid.Bool().Draw(t, "simple")})
-		w.Build()
+		oddExt := rapid.IntRange(0, 5).Draw(t, "leafWithOddSgxExtension") == 0
+		if oddExt {
+			// the (genuinely issued) leaf carries an SGX extension of a shape the statement does not classify or a
+			// malformed one: whatever the extension decoder makes of it, a forged quote stays rejected
+			v := w.Sgx
+			top := gen.SgxTree(&v)
+			if rapid.Bool().Draw(t, "oddity") {
+				w.SgxDER = c13Oddity(t, rapid.SampledFrom(c13Oddities).Draw(t, "oddityKind"), top)
+			} else {
+				w.SgxDER, _, _ = c13Mutate(t, rapid.SampledFrom(c13Malformations[:30]).Draw(t, "malformation"), top, gen.NewStream(7, "c01odd"))
+			}
+			gen.Class("leaf-with-odd-sgx-extension")
+		}
+		if !func() (ok bool) {
+			defer func() {
+				if recover() != nil {
+					ok = false // the standard library refuses to issue a certificate with this extension value
+				}
+			}()
+			w.Build()
+			return true
+		}() {
+			return
+		}
 		f := rapid.SampledFrom(c01Forgeries).Draw(t, "forgery")
+		if oddExt && f.expect == "accept" {
+			f = c01Forgeries[1+rapid.IntRange(0, 5).Draw(t, "forgeryInstead")] // no acceptance is promised for such a leaf: use a forgery
+		}
 		s := gen.NewStream(rapid.Uint64().Draw(t, "fcontent"), "forge")
 		q := w.Q.Clone()
 		f.apply(w, q, s)
